@@ -687,8 +687,30 @@ func noPanicIn(r *engine.Run, f *ssa.Function, entries []*ssa.Function, g *engin
 			return
 		}
 		name := fn(f)
-		if why, ok := panicExceptions[name]; ok {
-			good, detail := panicPrecondition(r, f, g)
+		owner := f
+		if _, listed := panicExceptions[name]; !listed && f.Object() != nil && !f.Object().Exported() && len(g.In[f]) > 0 {
+			// the panicking part of a listed function moved into an unexported helper that only
+			// that function calls: the exception (and its precondition) is the caller's
+			var only *ssa.Function
+			same := true
+			for _, e := range g.In[f] {
+				if only == nil {
+					only = e.Caller
+				} else if only != e.Caller {
+					same = false
+				}
+			}
+			if same && only != nil {
+				if _, ok := panicExceptions[fn(only)]; ok {
+					owner = only
+				}
+			}
+		}
+		if why, ok := panicExceptions[fn(owner)]; ok {
+			if owner != f {
+				why += " (in " + name + ", a helper called only from " + fn(owner) + ")"
+			}
+			good, detail := panicPrecondition(r, owner, g)
 			if good {
 				r.OK(rule, name+"|panic", r.P.Pos(p.Pos()), "named exception: "+why+" ["+detail+"]")
 			} else {
